@@ -3,10 +3,13 @@
 //! Provides a projection of a [`Schedule`] to a JSON value that uses public getters only, and a
 //! process-global recorder of trace events (off unless enabled).
 
+use std::cell::Cell;
+use std::io::Write;
 use std::panic::{catch_unwind, AssertUnwindSafe};
+use std::sync::atomic::{AtomicBool, AtomicU64, Ordering};
 use std::sync::Mutex;
 
-use model::base_types::VehicleIdx;
+use model::base_types::{NodeIdx, VehicleIdx, VehicleTypeIdx};
 use serde_json::{json, Value};
 
 use crate::tour::Tour;
@@ -48,9 +51,98 @@ pub fn drain() -> Vec<String> {
 
 /// Record an arbitrary event (no-op if the recorder is off).
 pub fn record_event(event: Value) {
+    if let Some(file) = TRACE_FILE.lock().unwrap_or_else(|e| e.into_inner()).as_mut() {
+        let _ = writeln!(file, "{}", event);
+        return;
+    }
     if let Some(events) = RECORDER.lock().unwrap_or_else(|e| e.into_inner()).as_mut() {
         events.push(event.to_string());
     }
+}
+
+// ---- hook H3: every outermost call of a public schedule modification as a self-contained
+// (pre, call, post) event. Off unless enabled by a harness (enable_calls) or by the environment
+// variable RSSCHED_VERIF_TRACE=<file> (then events are appended to that file).
+static CALLS_ON: AtomicBool = AtomicBool::new(false);
+static CALL_STRIDE: AtomicU64 = AtomicU64::new(1);
+static CALL_COUNTER: AtomicU64 = AtomicU64::new(0);
+static ENV_CHECKED: AtomicBool = AtomicBool::new(false);
+static TRACE_FILE: Mutex<Option<std::fs::File>> = Mutex::new(None);
+thread_local! {
+    static IN_CALL: Cell<bool> = const { Cell::new(false) };
+}
+
+/// Record every `stride`-th outermost modification call.
+pub fn enable_calls(stride: u64) {
+    CALL_STRIDE.store(stride.max(1), Ordering::SeqCst);
+    CALLS_ON.store(true, Ordering::SeqCst);
+}
+
+pub fn disable_calls() {
+    CALLS_ON.store(false, Ordering::SeqCst);
+}
+
+fn check_env() {
+    if ENV_CHECKED.swap(true, Ordering::SeqCst) {
+        return;
+    }
+    if let Ok(path) = std::env::var("RSSCHED_VERIF_TRACE") {
+        if let Ok(file) = std::fs::OpenOptions::new().create(true).append(true).open(path) {
+            *TRACE_FILE.lock().unwrap_or_else(|e| e.into_inner()) = Some(file);
+            CALLS_ON.store(true, Ordering::SeqCst);
+        }
+    }
+}
+
+/// True if this call is an outermost call that is to be recorded. The caller then invokes itself
+/// once more (that inner invocation sees `false`) and reports the result with `call_exit`.
+pub fn call_enter() -> bool {
+    check_env();
+    if !CALLS_ON.load(Ordering::Relaxed) {
+        return false;
+    }
+    IN_CALL.with(|c| {
+        if c.get() {
+            return false;
+        }
+        let n = CALL_COUNTER.fetch_add(1, Ordering::Relaxed);
+        if n % CALL_STRIDE.load(Ordering::Relaxed) != 0 {
+            return false;
+        }
+        c.set(true);
+        true
+    })
+}
+
+/// Resets the per-thread "inside a recorded call" flag, also when the call panics.
+pub struct CallGuard;
+
+impl Drop for CallGuard {
+    fn drop(&mut self) {
+        IN_CALL.with(|c| c.set(false));
+    }
+}
+
+pub fn call_exit(op: &str, args: Value, pre: &Schedule, result: Result<(&Schedule, Value), String>) {
+    let event = match result {
+        Ok((post, ret)) => json!({"ev": "call", "op": op, "args": args, "ok": true, "ret": ret,
+            "pre": project(pre), "post": project(post)}),
+        Err(msg) => json!({"ev": "call", "op": op, "args": args, "ok": false, "ret": {}, "msg": msg,
+            "pre": project(pre)}),
+    };
+    record_event(event);
+}
+
+pub fn node_id(schedule: &Schedule, node: NodeIdx) -> String {
+    schedule.get_network().node(node).id().to_string()
+}
+
+pub fn node_ids(schedule: &Schedule, nodes: impl Iterator<Item = NodeIdx>) -> Vec<String> {
+    nodes.map(|n| node_id(schedule, n)).collect()
+}
+
+pub fn type_id(schedule: &Schedule, vt: VehicleTypeIdx) -> String {
+    schedule.get_network().vehicle_types().get(vt).unwrap().id().clone()
 }
 
 /// Record a snapshot of the schedule under the given label (no-op if the recorder is off).
